@@ -59,10 +59,18 @@ fn vk_gcdo_root_sq_add<const N: usize, const M: usize>(s: &[Word; N], r: &[Word;
 fn vk_gcdo_root_check<const N: usize, const M: usize>(ones_from: usize) {
     // words below `ones_from` come from the palette, the words from `ones_from` up are all ones (the `q_top` region: the
     // normalized upper part is B^k - 1, its root remainder carries, and the quotient estimate reaches B^split)
-    let mut a = [Word::MAX; M];
+    // (the all-ones words are symbolic values constrained by `assume`: with literal constants CBMC 6.11 crashes -- status 136 --
+    // while constant-folding the 128-bit divisions)
+    let mut a = [0 as Word; M];
     let mut i = 0;
-    while i < M && i < ones_from {
-        a[i] = vk_gcdo_root_palette_word();
+    while i < M {
+        if i < ones_from {
+            a[i] = vk_gcdo_root_palette_word();
+        } else {
+            let w: Word = any();
+            assume(w == Word::MAX);
+            a[i] = w;
+        }
         i += 1;
     }
     // normalized: the top two bits are not both zero
